@@ -150,17 +150,25 @@ SaneFide(pos) ==
   /\ CastOK(pos)
   /\ (pos.ep < 8 => EpGeom(pos, pos.ep))
 
-\* a position that is sane except that it claims castling rights whose king or rook is not on its home square (texts
-\* with a habitual "KQkq").  Such a text may be refused; if it is imported, it is the described position, and the laws
-\* (a right alone does not make a castling move: king and rook must stand on their squares) say which moves it has.
-SaneExceptCast(pos) ==
+\* Texts of well-formed shape whose claims the board contradicts: castling rights whose king or rook is not on its home
+\* square (the habitual "KQkq"), an en-passant square that no double step can have left behind (no pawn in front of it,
+\* the square or the pawn's origin occupied), or one on the wrong side of the board for the side to move.  Such a text
+\* may be refused.  If it is imported, it is still the described board, side and rights, the void en-passant claim is
+\* kept or dropped, and the laws say which moves the position has: a right alone does not make a castling move (king and
+\* rook must stand on their squares), and no capture goes to an en-passant square that no double step left behind.
+SaneBoard(pos) ==
   /\ MaterialOK(pos.board)
   /\ Cardinality(KingSquares(pos.board, White)) = 1
   /\ Cardinality(KingSquares(pos.board, Black)) = 1
   /\ \A s \in (0..7) \cup (56..63) : pos.board[s] \notin {"P", "p"}
   /\ ~InCheck(pos.board, Other(pos.stm))
-  /\ (pos.ep < 8 => EpGeom(pos, pos.ep))
-ImportJudged(chars) == SyntaxClass(chars) = "A" /\ SaneExceptCast(Parse(chars))
+EpWrongSide(chars) == LET fc == FieldClasses(chars) IN Len(fc) >= 4 /\ fc[4] = "G"
+Described(chars) == LET p == Parse(chars) IN IF EpWrongSide(chars) THEN [p EXCEPT !.ep = 8] ELSE p
+ImportJudged(chars) ==
+  LET fc == FieldClasses(chars) IN
+  /\ Len(fc) >= 4
+  /\ \A i \in 1..Len(fc) : fc[i] = "A" \/ (i = 4 /\ fc[i] = "G")
+  /\ SaneBoard(Described(chars))
 
 \* the engine-convention reading of a position: ep kept only when capturable
 Normalize(pos) ==
